@@ -22,6 +22,7 @@ def extract_all(R=None):
     paths, errors = core.extract(units, allow_errors=True)
     good = [p for p in paths if os.path.exists(p) and os.path.getsize(p) > 0]
     for p in good: core._REPO_UNITS[p] = True
+    for (src, _), p in zip(units, paths): _SRC[p] = src
     if R is not None:
         R.cov['repo_units'] = len(units); R.cov['repo_units_extracted'] = len(good)
         if len(good) < 150 and not os.environ.get('VERIF_UNITS'):
@@ -29,11 +30,23 @@ def extract_all(R=None):
     return good
 
 
+_SRC = {}
+
+
+def _source_of(path):
+    return _SRC.get(path, '')
+
+
 def _work(args):
     func_mod, func_name, path, extra = args
-    import importlib
+    import importlib, time
     mod = importlib.import_module(func_mod)
-    return path, getattr(mod, func_name)(path, *extra)
+    # units of the repository (tests, examples) get a time budget: what is not reached is listed as not analysed; universe units have none
+    core.UNIT_DEADLINE = (time.time() + float(os.environ.get('VERIF_UNIT_SECONDS', '600'))) if '/src/' in _source_of(path) else None
+    try:
+        return path, getattr(mod, func_name)(path, *extra)
+    finally:
+        core.UNIT_DEADLINE = None
 
 
 def map_units(func_mod, func_name, paths, extra=(), workers=16):
